@@ -11,3 +11,8 @@ import SpecVerif.Props.C09
 import SpecVerif.Props.C10
 import SpecVerif.Props.C19
 import SpecVerif.Props.C20
+import SpecVerif.Props.C14
+import SpecVerif.Props.C05
+import SpecVerif.Props.C03
+import SpecVerif.Props.C17
+import SpecVerif.Props.C16
